@@ -30,7 +30,7 @@ def runX {X : XAlg} : Xof X → Option (Xof X) → List XOp → Bytes → List S
   | cur, oth, .w n :: rest, data, acc =>
     if n > data.length then none else
     match cur.write (data.take n) with
-    | none => some ("panic" :: acc).reverse
+    | none => runX cur oth rest (data.drop n) ("panic" :: acc)   -- the panic is raised before anything changes
     | some cur' => runX cur' oth rest (data.drop n) acc
   | cur, oth, .rd n :: rest, data, acc =>
     let (cur', out, eof) := cur.read n
